@@ -1,9 +1,6 @@
 use crate::{
-    layouts::{VecZnx, VecZnxToMut, VecZnxToRef, ZnxInfos},
-    reference::{
-        vec_znx::{vec_znx_rotate_assign, vec_znx_switch_ring},
-        znx::{ZnxCopy, ZnxRotate, ZnxSwitchRing, ZnxZero},
-    },
+    layouts::{VecZnx, VecZnxToMut, VecZnxToRef, ZnxInfos, ZnxView, ZnxViewMut},
+    reference::znx::{ZnxCopy, ZnxRotate, ZnxSwitchRing, ZnxZero},
 };
 
 pub fn vec_znx_merge_rings_tmp_bytes(n: usize) -> usize {
@@ -37,10 +34,27 @@ where
         assert_eq!(a.len(), _n_out / _n_in);
     }
 
-    a.iter().for_each(|ai| {
-        vec_znx_switch_ring::<_, _, ZNXARI>(&mut res, res_col, ai, a_col);
-        vec_znx_rotate_assign::<_, ZNXARI>(-1, &mut res, res_col, tmp);
-    });
+    // Inverse of vec_znx_split_ring: the i-th part holds the coefficients of res
+    // whose index is congruent to i modulo gap, i.e. res[gap * t + i] = a[i][t].
+    let _ = tmp;
+    let gap: usize = a.len();
+    let res_size: usize = res.size();
 
-    vec_znx_rotate_assign::<_, ZNXARI>(a.len() as i64, &mut res, res_col, tmp);
+    a.iter().enumerate().for_each(|(i, ai)| {
+        let ai: VecZnx<&[u8]> = ai.to_ref();
+        let min_size: usize = res_size.min(ai.size());
+
+        for j in 0..min_size {
+            res.at_mut(res_col, j)
+                .iter_mut()
+                .skip(i)
+                .step_by(gap)
+                .zip(ai.at(a_col, j).iter())
+                .for_each(|(x_out, x_in)| *x_out = *x_in);
+        }
+
+        for j in min_size..res_size {
+            res.at_mut(res_col, j).iter_mut().skip(i).step_by(gap).for_each(|x_out| *x_out = 0);
+        }
+    });
 }
